@@ -32,6 +32,10 @@ pub struct MomCfg {
     pub path: Vec<u32>,
     pub agent_seed: u64,
     pub shuffle_seed: u64,
+    /// the whole path runs in a no-trading period and the harness quotes are *crossed* (bid above ask, by a width that
+    /// varies from step to step) around the same imposed mid
+    #[serde(default)]
+    pub halted: bool,
 }
 
 #[derive(Clone, Debug, PartialEq, Serialize)]
@@ -63,11 +67,13 @@ pub struct MomCensus {
     pub unsaturated_trials: u64,
     pub unsaturated_limit_trials: u64,
     pub half_tick_mids: u64,
+    pub halted_crossed_paths: u64,
+    pub hold_updates_with_momentum: u64,
 }
 impl MomCensus {
     fn merge(&mut self, o: &MomCensus) {
         macro_rules! add { ($($f:ident),*) => { $( self.$f += o.$f; )* } }
-        add!(paths, updates, saturated_updates, saturated_buy_updates, saturated_sell_updates, zero_momentum_updates, reversal_updates, orders, buys, sells, limit_orders, mirrored_pairs, mirrored_orders_compared, multi_asset_paths, negative_demand_or_scale_paths, unsaturated_trials, unsaturated_limit_trials, half_tick_mids);
+        add!(paths, updates, saturated_updates, saturated_buy_updates, saturated_sell_updates, zero_momentum_updates, reversal_updates, orders, buys, sells, limit_orders, mirrored_pairs, mirrored_orders_compared, multi_asset_paths, negative_demand_or_scale_paths, unsaturated_trials, unsaturated_limit_trials, half_tick_mids, halted_crossed_paths, hold_updates_with_momentum);
     }
 }
 
@@ -89,7 +95,10 @@ fn run_host<H: Host>(mut host: H, c: &MomCfg, cs: &mut MomCensus, tallies: &mut 
     let bad = |k: &str, d: String| -> Result<Vec<Flow>, (String, String)> { Err((k.to_string(), d)) };
     let a = c.asset;
     let tick = c.ticks[a];
-    let mut env = <H::E as SimEnv>::create(0, &c.ticks, 100, true);
+    let mut env = <H::E as SimEnv>::create(0, &c.ticks, 100, !c.halted);
+    if c.halted {
+        cs.halted_crossed_paths += 1;
+    }
     let mut shuffle = Xoroshiro128StarStar::seed_from_u64(c.shuffle_seed);
     let mut arng = Xoroshiro128StarStar::seed_from_u64(c.agent_seed);
     let n = c.n_agents as f64;
@@ -113,7 +122,15 @@ fn run_host<H: Host>(mut host: H, c: &MomCfg, cs: &mut MomCensus, tallies: &mut 
         env.do_step(&mut shuffle);
         // the path is given in HALF ticks: even values are mids on the grid (two-tick spread), odd
         // values are half-tick mids (one-tick spread), so mid moves of half a tick occur too
-        let (bk, ak) = if k % 2 == 0 { (k / 2 - 1, k / 2 + 1) } else { ((k - 1) / 2, (k + 1) / 2) };
+        let (bk, ak) = if c.halted {
+            // crossed quotes with bid + ask = k ticks: the mid is still k/2 ticks, the spread is negative and changes
+            let w = 1 + ((c.shuffle_seed >> (step % 32)) & 3) as u32;
+            ((k + 1) / 2 + w, k / 2 - w)
+        } else if k % 2 == 0 {
+            (k / 2 - 1, k / 2 + 1)
+        } else {
+            ((k - 1) / 2, (k + 1) / 2)
+        };
         env.place(a, true, 1_000_000, QUOTER, Some(bk * tick)).map_err(|e| ("harness".to_string(), e))?;
         env.place(a, false, 1_000_000, QUOTER, Some(ak * tick)).map_err(|e| ("harness".to_string(), e))?;
         env.do_step(&mut shuffle);
@@ -139,6 +156,9 @@ fn run_host<H: Host>(mut host: H, c: &MomCfg, cs: &mut MomCensus, tallies: &mut 
         if let Some(lp) = last {
             if (mid - lp) * m_new < 0.0 {
                 cs.reversal_updates += 1; // sign(M) differs from sign(P - p)
+            }
+            if mid == lp && m_new != 0.0 {
+                cs.hold_updates_with_momentum += 1; // unchanged mid, momentum only fades
             }
         }
         let before = env.env_orders(a).len();
@@ -236,6 +256,8 @@ pub fn random_cfg(rng: &mut Sm, i: usize, saturated: bool) -> MomCfg {
             3 => 0,                                       // flat
             _ => if (s / 3) % 2 == 0 { rng.range(2, 9) as i64 } else { -(rng.range(1, 3) as i64) }, // trend with small reversals
         };
+        // holds: the mid stays exactly where it was while momentum from earlier moves is still fading
+        let d = if kind != 3 && rng.chance(0.15) { 0 } else { d };
         let d = if whole { 2 * d } else { d };
         cur = (cur + d).clamp(40, 40_000);
         path.push(cur as u32);
@@ -261,6 +283,7 @@ pub fn random_cfg(rng: &mut Sm, i: usize, saturated: bool) -> MomCfg {
         path,
         agent_seed: rng.next(),
         shuffle_seed: rng.next(),
+        halted: rng.chance(0.15),
     }
 }
 
@@ -395,6 +418,8 @@ pub fn c17(ctx: &Ctx) -> i32 {
         ("mirrored_pairs", cs.mirrored_pairs, 1000),
         ("multi_asset_paths", cs.multi_asset_paths, 500),
         ("negative_demand_or_scale_paths", cs.negative_demand_or_scale_paths, 200),
+        ("halted_crossed_paths", cs.halted_crossed_paths, 500),
+        ("hold_updates_with_momentum", cs.hold_updates_with_momentum, 1000),
         ("unsaturated_trials", cs.unsaturated_trials, 20_000),
         ("unsaturated_limit_trials", cs.unsaturated_limit_trials, 10_000),
         ("half_tick_mids", cs.half_tick_mids, 2000),
@@ -402,7 +427,7 @@ pub fn c17(ctx: &Ctx) -> i32 {
     let cov = json!({
         "evaluations": cs.updates,
         "distinct_nontrivial": d.len(),
-        "rule": "cases = momentum-agent update calls along harness-imposed mid-price paths (the harness cancels everything and re-quotes around the path level with huge volume — two-tick spread for mids on the grid, one-tick spread for half-tick mids — in harness-only steps, so the agent's orders never move the touch); rising / falling / mixed / flat / trend-with-reversals paths, decay/scale/demand/order-ratio grids (demand and scale of either sign), 1..20 traders, single- and multi-asset; judged: side = sign(M) with M recomputed from the observed mids, exactly one market order (and one limit order if ratio*|p| >= 1) per trader when |demand*tanh(scale*M)|/n >= 1, nothing when M = 0, Binomial band when unsaturated, and mirrored-run comparison (path k vs 2L-k with identical seeds: same steps, traders, kinds and volumes, opposite sides; prices are not compared); distinct = distinct (path, agent seed) pairs; non-trivial = the path both rises and falls",
+        "rule": "cases = momentum-agent update calls along harness-imposed mid-price paths (the harness cancels everything and re-quotes around the path level with huge volume — two-tick spread for mids on the grid, one-tick spread for half-tick mids — in harness-only steps, so the agent's orders never move the touch); rising / falling / mixed / flat / trend-with-reversals paths with occasional holds (mid unchanged while momentum fades); 15% of the paths run in a no-trading period with crossed harness quotes of varying width around the same mid; decay/scale/demand/order-ratio grids (demand and scale of either sign), 1..20 traders, single- and multi-asset; judged: side = sign(M) with M recomputed from the observed mids, exactly one market order (and one limit order if ratio*|p| >= 1) per trader when |demand*tanh(scale*M)|/n >= 1, nothing when M = 0, Binomial band when unsaturated, and mirrored-run comparison (path k vs 2L-k with identical seeds: same steps, traders, kinds and volumes, opposite sides; prices are not compared); distinct = distinct (path, agent seed) pairs; non-trivial = the path both rises and falls",
         "samples": samples,
         "census": cs,
         "unsaturated_bands": bands,
